@@ -53,6 +53,7 @@ def compare(rec, tag, desc, A, B, ctx, mags=None):
 
 
 def run(M, rec, tier, seed, k, n):
+    W.USER_KINDS["prob"] = 0.12  # user-defined origin / link kinds (README "Extensions")
     np.seterr(all="ignore")
     rng = random.Random(seed * 1000 + k + 300)
     g = G.NetGen(rng)
@@ -106,7 +107,9 @@ def run(M, rec, tier, seed, k, n):
             for st in ("SX", "MX"):
                 try:
                     case = CC.CompileCase(M, rng, desc, pars, st, keys, opts, own_symbols=(rng.random() < 0.6),
-                                          fixed_from=points[0], fixed_prob=0.35)
+                                          fixed_from=points[0], fixed_prob=0.35, named_scalars_prob=0.3, scaled_prob=0.3)
+                    if case.scaled:
+                        rec.count("cases_with_inputs_given_as_expressions_of_user_symbols")
                     if case.fixed:
                         rec.count("cases_with_variables_supplied_as_numbers")
                 except Exception as e:
